@@ -1381,10 +1381,15 @@ func (m *Machine) rangeStart(fr *frame, v Val) Val {
 				}
 			}
 			if m.orderChoice(fr.fn) {
+				m.orderUsed = true
 				n := len(it.ents)
-				if n >= 2 && n <= m.cfg.MaxPermute {
+				maxPerm := m.cfg.MaxPermute
+				if v, ok := m.cfg.Params["maxpermute"]; ok {
+					maxPerm = v
+				}
+				if n >= 2 && n <= maxPerm {
 					it.perm = true
-				} else if n > m.cfg.MaxPermute {
+				} else if n > maxPerm {
 					if m.chooseN(2, "map order: insertion/reverse") == 1 {
 						for i, j := 0, n-1; i < j; i, j = i+1, j-1 {
 							it.ents[i], it.ents[j] = it.ents[j], it.ents[i]
